@@ -18,8 +18,11 @@ import MW.Spec.Chain
 import MW.Lemmas.LedgerDeposit
 import MW.Lemmas.LedgerDepositEx
 import MW.Lemmas.TxmgrCodecRec
+import MW.Model.WithdrawSeq
+import MW.Lemmas.WithdrawSeq
 namespace MW.Props.C10
 open MW MW.Model.Ledger MW.Spec.Chain MW.Spec.Books MW.Lemmas.Ledger
+open MW.Model.WithdrawSeq MW.Model.ScriptVM MW.Lemmas.ScriptVMMain MW.Lemmas.WithdrawSeq
 
 /-- the maturity the wallet records for a staking output is frozen period + 1, the sequence value
     consensus requires for spending it (`withdraw_sequence`, value part) -/
@@ -239,6 +242,109 @@ theorem binding_old_withdrawable {c : Ctx} {s : Store} {chain : List Block} (H :
     (hcb : u.cb = false) : confs s.syncedTo u.blk.height ≥ (creditOf c.p u).maturity :=
   MW.Lemmas.Ledger.binding_old_withdrawable H hu hf hcb
 
+
+-- ------------------------------------------------------------------ 6. withdraw_sequence (round 4)
+-- `seqChoice lockTime cls prevHeight` (MW.Model.WithdrawSeq) is constructTxIn's / addTxIn's switch, executed by
+-- the `led` driver for the op `wseq`; `SeqRule seq lock` is what the script engine's `<lock> OP_CHECKSEQUENCEVERIFY`
+-- prelude demands of the input's sequence (MW.Lemmas.ScriptVMMain.csvCheck_ok_iff); `lockMet seq origin bh` is
+-- mass-core's calcSequenceLock + SequenceLockActive for one input (height part); `seqOK` is the spec's rule.
+-- `ClsHeightOK cls h` is the consensus fact used as hypothesis: frozen period + 1 < 2^32
+-- (wire.IsValidFrozenPeriod), a 22-byte binding target only at heights ≥ MASSIP0002WarmUpHeight, a 20-byte one
+-- only below (checkParsePkScriptNew). Both binding directions are necessary: `withdraw_sequence_needs_*`.
+
+/-- tie B: the Go switch still has the modelled shape, and the constants the proofs rely on -/
+theorem gen_tie_seq_choice : Gen.Vm.seqChoiceShape = true ∧
+    Gen.Vm.maxTxInSequenceNum = 2^64 - 1 ∧ Gen.Vm.sequenceLockTimeDisabled = 2^63 ∧
+    Gen.Vm.sequenceLockTimeIsSeconds = 2^38 ∧ Gen.Vm.sequenceLockTimeMask = 2^32 - 1 ∧
+    Gen.Vm.bindingLockedPeriod = Model.Ledger.bindingLockedPeriod ∧
+    Gen.Vm.bindingLockedPeriod = 2^32 - 2 ∧ Gen.Vm.massip2WarmUpHeight = 1398801 := by decide
+
+/-- the wallet's sequence on the input that withdraws a staking deposit (`.stk f`) or a MASSIP-2 binding
+    deposit (`.bindNew`), for EVERY lock time: (a) the script engine's CSV rule accepts it, (b) it is the least
+    sequence number the rule accepts (masked and as a number), (c) with it the consensus sequence lock of the
+    input is met by the block at height tip+1 exactly when the spec's rule `seqOK tip c` holds -/
+theorem withdraw_sequence (lt tip : Nat) (c : SCoin)
+    (hd : (∃ f, c.cls = .stk f) ∨ (∃ t, c.cls = .bindNew t)) (hc : ClsHeightOK c.cls c.height)
+    (hh : c.height < 2^32) :
+    SeqRule (seqChoice lt c.cls c.height) (scriptLock c.cls) ∧
+    (∀ seq', SeqRule seq' (scriptLock c.cls) →
+      seqChoice lt c.cls c.height ≤ seqMasked seq' ∧ seqChoice lt c.cls c.height ≤ seq') ∧
+    lockMet (seqChoice lt c.cls c.height) c.height (tip + 1) = seqOK tip c :=
+  MW.Lemmas.WithdrawSeq.withdraw_sequence lt tip c hd hc hh
+
+/-- (a) staking: sequence = frozen period + 1 satisfies `<f+1> OP_CHECKSEQUENCEVERIFY` -/
+theorem withdraw_sequence_staking (lt h : Nat) {f : Nat} (hf : f + 1 < 2^32) :
+    seqChoice lt (.stk f) h = f + 1 ∧ SeqRule (seqChoice lt (.stk f) h) (f + 1) :=
+  ⟨rfl, seqChoice_rule_stk lt h hf⟩
+
+/-- (a) binding at a height that enforces MASSIP-2 (old or new template: the engine's prelude covers both) -/
+theorem withdraw_sequence_binding {lt h : Nat} {cls : Cls} (hb : cls.isBinding = true)
+    (hh : Gen.Vm.massip2WarmUpHeight ≤ h) :
+    seqChoice lt cls h = Gen.Vm.bindingLockedPeriod ∧ SeqRule (seqChoice lt cls h) Gen.Vm.bindingLockedPeriod :=
+  ⟨seqChoice_bind hb hh, seqChoice_rule_bind hb hh⟩
+
+/-- (b) least: every sequence number the CSV rule accepts is at least the wallet's -/
+theorem withdraw_sequence_least_staking (lt h : Nat) {f seq' : Nat} (hf : f + 1 < 2^32)
+    (hr : SeqRule seq' (f + 1)) :
+    seqChoice lt (.stk f) h ≤ seqMasked seq' ∧ seqChoice lt (.stk f) h ≤ seq' :=
+  seqChoice_least_stk lt h hf hr
+
+theorem withdraw_sequence_least_binding {lt h : Nat} {cls : Cls} {seq' : Nat} (hb : cls.isBinding = true)
+    (hh : Gen.Vm.massip2WarmUpHeight ≤ h) (hr : SeqRule seq' Gen.Vm.bindingLockedPeriod) :
+    seqChoice lt cls h ≤ seqMasked seq' ∧ seqChoice lt cls h ≤ seq' :=
+  seqChoice_least_bind hb hh hr
+
+/-- (c) for EVERY class: consensus sequence lock of the wallet's input at tip+1 = the spec's `seqOK` -/
+theorem withdraw_sequence_consensus (lt tip : Nat) (c : SCoin) (hc : ClsHeightOK c.cls c.height)
+    (hh : c.height < 2^32) :
+    lockMet (seqChoice lt c.cls c.height) c.height (tip + 1) = seqOK tip c :=
+  lockMet_seqChoice_eq_seqOK lt tip c hc hh
+
+/-- (d) every other case — standard, unsupported, binding below the warm-up height — keeps the default
+    `2^64−1` (no lock time) / `2^64−2` (lock time set: sequence ≠ MaxTxInSequenceNum keeps the lock-time
+    field effective, see `withdraw_sequence_locktime_effective`); its disable bit is set: no sequence lock -/
+theorem withdraw_sequence_default {lt h : Nat} {cls : Cls} (hs : cls.isStaking = false)
+    (hb : cls.isBinding = false ∨ h < Gen.Vm.massip2WarmUpHeight) (o : Nat) :
+    seqChoice lt cls h = (if lt ≠ 0 then 2^64 - 2 else 2^64 - 1) ∧
+    seqDisabled (seqChoice lt cls h) = true ∧ inputLockHeight (seqChoice lt cls h) o = none ∧
+    (∀ bh, 0 < bh → lockMet (seqChoice lt cls h) o bh = true) := by
+  rw [seqChoice_default hs hb]
+  exact ⟨defaultSeq_eq lt, (defaultSeq_disabled lt o).1, (defaultSeq_disabled lt o).2.1, (defaultSeq_disabled lt o).2.2.1⟩
+
+theorem withdraw_sequence_locktime_effective {lt h : Nat} {cls : Cls} (hs : cls.isStaking = false)
+    (hb : cls.isBinding = false ∨ h < Gen.Vm.massip2WarmUpHeight) (hl : lt ≠ 0) :
+    seqChoice lt cls h ≠ Gen.Vm.maxTxInSequenceNum := by
+  rw [seqChoice_default hs hb]; exact defaultSeq_not_final hl
+
+/-- connection to `withdrawable_iff` / `staking_withdrawable_iff` / `binding_new_withdrawable_iff`: the input
+    the wallet builds on an unspent coin of its books can be included in the NEXT block (height
+    `chain.length`: coinbase maturity and the input's sequence lock) exactly when the wallet's maturity test
+    reports the coin withdrawable / spendable — the first such height is the one those theorems give -/
+theorem withdraw_sequence_first_height {c : Ctx} {s : Store} {chain : List Block} (H : ObsHyp c s chain)
+    {u : UCoin} (hu : u ∈ (bookOf c.p c.own chain).L) (lt : Nat) (hc : ClsHeightOK u.out.cls u.blk.height)
+    (hh : u.blk.height < 2^32) :
+    confs s.syncedTo u.blk.height ≥ (creditOf c.p u).maturity ↔
+      ((if u.cb then decide (chain.length - u.blk.height ≥ c.p.cbMaturity) else true) &&
+        lockMet (seqChoice lt u.out.cls u.blk.height) u.blk.height chain.length) = true :=
+  MW.Lemmas.WithdrawSeq.first_height H hu lt hc hh
+
+/-- the hypothesis is NECESSARY, direction 1: an old-style binding output at a height ≥ warm-up (consensus
+    admits none): the wallet sets the MASSIP-2 sequence — as the script engine demands under ScriptMASSip2,
+    which covers 20-byte targets too — so the input is locked, while the spec's `seqOK` says "no lock" -/
+theorem withdraw_sequence_needs_old_below :
+    let c : SCoin := ⟨"w", "t", 0, 1, 1398801, false, .bindOld "T", "a"⟩
+    lockMet (seqChoice 0 c.cls c.height) c.height (1398801 + 1) = false ∧
+      seqOK 1398801 c = true ∧ ¬ ClsHeightOK c.cls c.height :=
+  bindOld_above_warmup_discrepancy
+
+/-- direction 2: a new-style binding output below the warm-up height (consensus admits none): default
+    sequence, no engine prelude — spendable at once — while spec and stored maturity say 0xfffffffe blocks -/
+theorem withdraw_sequence_needs_new_above :
+    let c : SCoin := ⟨"w", "t", 0, 1, 5, false, .bindNew "T", "a"⟩
+    lockMet (seqChoice 0 c.cls c.height) c.height (5 + 1) = true ∧
+      seqOK 5 c = false ∧ ¬ ClsHeightOK c.cls c.height :=
+  bindNew_below_warmup_discrepancy
+
 -- ------------------------------------------------------------------ non-vacuity
 -- `dpChain`: genesis; h1 coinbase to the wallet; h2 `t1` = staking deposit frozen 1 (20), staking deposit
 -- frozen 2 (25), MASSIP-2 binding deposit (5), old-style binding deposit (4); h3 the coinbase `c3` pays a staking
@@ -443,5 +549,72 @@ theorem codec_credit_flags :
         bitField bS fl == 0 && ((bitField bC fl != 0) == ch) && bitField bK fl == c.code
       | _, _ => false) = true := by decide
 end Codec
+
+-- withdraw_sequence: the staking deposit t1:1 of `dpChain` (height 2, frozen 2) and a MASSIP-2 binding deposit
+-- at the warm-up height
+
+example : seqChoice 0 (.stk 2) 2 = 3 ∧ seqChoice 77 (.stk 2) 2 = 3 ∧ seqChoice 0 .std 2 = 2^64 - 1 ∧
+    seqChoice 77 .std 2 = 2^64 - 2 ∧ seqChoice 0 (.bindOld "O") 2 = 2^64 - 1 ∧
+    seqChoice 77 (.bindNew "T") 1398800 = 2^64 - 2 ∧ seqChoice 77 (.bindNew "T") 1398801 = 0xfffffffe := by decide
+
+example : SeqRule (seqChoice 9 dpU1.toSCoin.cls dpU1.toSCoin.height) (scriptLock dpU1.toSCoin.cls) ∧
+    (∀ seq', SeqRule seq' (scriptLock dpU1.toSCoin.cls) →
+      seqChoice 9 dpU1.toSCoin.cls dpU1.toSCoin.height ≤ seqMasked seq' ∧
+      seqChoice 9 dpU1.toSCoin.cls dpU1.toSCoin.height ≤ seq') ∧
+    lockMet (seqChoice 9 dpU1.toSCoin.cls dpU1.toSCoin.height) dpU1.toSCoin.height (4 + 1) = seqOK 4 dpU1.toSCoin :=
+  withdraw_sequence 9 4 dpU1.toSCoin (Or.inl ⟨2, rfl⟩) (by decide) (by decide)
+
+example : let c : SCoin := ⟨"w", "t", 0, 5, 1398801, false, .bindNew "T", "k"⟩
+    SeqRule (seqChoice 0 c.cls c.height) (scriptLock c.cls) ∧
+    (∀ seq', SeqRule seq' (scriptLock c.cls) →
+      seqChoice 0 c.cls c.height ≤ seqMasked seq' ∧ seqChoice 0 c.cls c.height ≤ seq') ∧
+    lockMet (seqChoice 0 c.cls c.height) c.height (1400000 + 1) = seqOK 1400000 c :=
+  withdraw_sequence 0 1400000 ⟨"w", "t", 0, 5, 1398801, false, .bindNew "T", "k"⟩ (Or.inr ⟨"T", rfl⟩)
+    (by decide) (by decide)
+
+example : seqChoice 5 (.stk 61440) 10 = 61441 ∧ SeqRule (seqChoice 5 (.stk 61440) 10) 61441 :=
+  withdraw_sequence_staking 5 10 (by decide)
+
+example : seqChoice 5 (.bindOld "O") 1398801 = Gen.Vm.bindingLockedPeriod ∧
+    SeqRule (seqChoice 5 (.bindOld "O") 1398801) Gen.Vm.bindingLockedPeriod :=
+  withdraw_sequence_binding rfl (by decide)
+
+/-- least: 61441 is accepted, so is 61442 (and it is larger); 61440 is not -/
+example : SeqRule 61442 61441 ∧ ¬ SeqRule 61440 61441 := by
+  constructor
+  · unfold SeqRule; decide
+  · intro h; exact absurd (withdraw_sequence_least_staking 0 0 (f := 61440) (by decide) h).2 (by decide)
+
+example : seqChoice 0 (.stk 61440) 0 ≤ seqMasked 61442 ∧ seqChoice 0 (.stk 61440) 0 ≤ 61442 :=
+  withdraw_sequence_least_staking 0 0 (by decide) (by unfold SeqRule; decide)
+
+example : seqChoice 0 (.bindNew "T") 1398801 ≤ seqMasked 0xffffffff ∧ seqChoice 0 (.bindNew "T") 1398801 ≤ 0xffffffff :=
+  withdraw_sequence_least_binding rfl (by decide) (by unfold SeqRule; decide)
+
+example : lockMet (seqChoice 3 dpU3.toSCoin.cls dpU3.toSCoin.height) dpU3.toSCoin.height (4 + 1) = seqOK 4 dpU3.toSCoin :=
+  withdraw_sequence_consensus 3 4 dpU3.toSCoin (by decide) (by decide)
+
+example : seqChoice 7 (.bindNew "T") 2 = (if 7 ≠ 0 then 2^64 - 2 else 2^64 - 1) ∧
+    seqDisabled (seqChoice 7 (.bindNew "T") 2) = true ∧ inputLockHeight (seqChoice 7 (.bindNew "T") 2) 2 = none ∧
+    (∀ bh, 0 < bh → lockMet (seqChoice 7 (.bindNew "T") 2) 2 bh = true) :=
+  withdraw_sequence_default rfl (Or.inr (by decide)) 2
+
+example : seqChoice 7 .std 2 ≠ Gen.Vm.maxTxInSequenceNum :=
+  withdraw_sequence_locktime_effective rfl (Or.inl rfl) (by decide)
+
+/-- first height: the staking deposit t1:1 (height 2, frozen 2) passes the wallet's test at `dpChain`
+    (length 5) and the wallet's input (sequence 3) is includable in block 5 -/
+example : confs dpS.syncedTo 2 ≥ (creditOf dpCtx.p dpU1).maturity ↔
+    ((if dpU1.cb then decide (dpChain.length - 2 ≥ dpCtx.p.cbMaturity) else true) &&
+      lockMet (seqChoice 0 (.stk 2) 2) 2 dpChain.length) = true :=
+  withdraw_sequence_first_height dpHyp.1 dpU1_mem 0 (by decide) (by decide)
+
+example : lockMet (seqChoice 0 (.stk 2) 2) 2 5 = true ∧ lockMet (seqChoice 0 (.stk 2) 2) 2 4 = false := by decide
+
+/-- the staking output of the coinbase c3 (height 3, frozen 3): the input (sequence 4) is not includable yet -/
+example : ¬ ((if dpU4.cb then decide (dpChain.length - dpU4.blk.height ≥ dpCtx.p.cbMaturity) else true) &&
+      lockMet (seqChoice 0 dpU4.out.cls dpU4.blk.height) dpU4.blk.height dpChain.length) = true :=
+  fun h => absurd ((withdraw_sequence_first_height dpHyp.1 dpU4_mem 0 (by decide) (by decide)).2 h)
+    (fun h' => absurd ((staking_cb_withdrawable_iff dpHyp.1 dpU4_mem (f := 3) rfl rfl).1 h').2 (by decide))
 
 end MW.Props.C10
